@@ -236,11 +236,11 @@ def run(ctx):
                    '%s also accepts leading white space and a sign, and its input %s: "-1" or " 300" are then taken as '
                    'numbers (a negative one wraps to the maximum) instead of leaving the default' % (c['callee'], why),
                    how=why)
-    # ---- T9: "output = NAME" without ":" means an empty argument --------------------------------------------
-    output_without_argument_rule(ctx, prog)
     # ---- T11: string options keep the whole text; T12: snoopyctl conf prints values unchanged ------------------
     string_options_stored_whole(ctx, prog, rows)
     conf_prints_values_unchanged(ctx)
+    # ---- T9: "output = NAME" without ":" means an empty argument --------------------------------------------
+    output_without_argument_rule(ctx, prog)
     # ---- T5 --------------------------------------------------------------------------------------
     sec = [c for c in CB.calls('strcmp') if any(strip(a).k == 'StringLiteral' and strip(a).get('s') == 'snoopy' for a in c.ch[1:])]
     ok = len(sec) == 1
